@@ -32,3 +32,7 @@ def run(rep: Report, repo: Repo, tier: str) -> None:
         fsrules.rule_mode_independence(rep, repo, "C18-R8")
     with rep.isolated():
         fsrules.rule_index_before_pages(rep, repo, "C18-R9")
+    # the file of -o mode holds what stdout mode prints: write_to_file writes str(self) unchanged
+    from . import writer_rules as _wr
+    with rep.isolated():
+        _wr.rule_file_is_rendered_text(rep, repo, "C18-R10")
